@@ -932,6 +932,22 @@ class MultiUserChannelMatrix:  # pylint: disable=R0902
                     *= small_matrix[rx, tx]
         return big_matrix
 
+    def _update_pathloss_big_matrix(self) -> None:
+        """
+        Recompute `_pathloss_big_matrix` from `_pathloss_matrix` for the
+        current number of antennas.
+
+        The "big" path loss matrix depends on the number of antennas of each
+        user and must be recomputed whenever they change.
+        """
+        if self._pathloss_matrix is None:
+            self._pathloss_big_matrix = None
+        else:
+            self._pathloss_big_matrix \
+                = MultiUserChannelMatrix._from_small_matrix_to_big_matrix(
+                    self._pathloss_matrix, self._Nr, self._Nt, self._K)
+            self._pathloss_big_matrix.setflags(write=False)
+
     def init_from_channel_matrix(self, channel_matrix: np.ndarray,
                                  Nr: IntOrIntArrayUnion,
                                  Nt: IntOrIntArrayUnion, K: int) -> None:
@@ -1000,6 +1016,9 @@ class MultiUserChannelMatrix:  # pylint: disable=R0902
         self._big_H_no_pathloss.setflags(write=False)
         self._H_no_pathloss.setflags(write=False)
 
+        # The number of antennas may have changed
+        self._update_pathloss_big_matrix()
+
     def randomize(self, Nr: IntOrIntArrayUnion, Nt: IntOrIntArrayUnion,
                   K: int) -> None:
         """
@@ -1042,6 +1061,9 @@ class MultiUserChannelMatrix:  # pylint: disable=R0902
         # modification of individual elements in both of them.
         self._big_H_no_pathloss.setflags(write=False)
         self._H_no_pathloss.setflags(write=False)
+
+        # The number of antennas may have changed
+        self._update_pathloss_big_matrix()
 
     def get_Hkl(self, k: int, l: int) -> np.ndarray:
         """
@@ -2411,6 +2433,21 @@ class MultiUserChannelMatrixExtInt(  # pylint: disable=R0904
         self._extIntNt = extIntNt
 
         MultiUserChannelMatrix.randomize(self, full_Nr, full_Nt, full_K)
+
+    def _update_pathloss_big_matrix(self) -> None:
+        """
+        Recompute `_pathloss_big_matrix` from `_pathloss_matrix` (which
+        already includes the external interference path loss) for the
+        current number of antennas.
+        """
+        if self._pathloss_matrix is None:
+            self._pathloss_big_matrix = None
+        else:
+            self._pathloss_big_matrix \
+                = MultiUserChannelMatrix._from_small_matrix_to_big_matrix(
+                    self._pathloss_matrix, self._Nr, self._Nt, self.K,
+                    self._K)
+            self._pathloss_big_matrix.setflags(write=False)
 
     def set_pathloss(self,
                      pathloss_matrix: Optional[np.ndarray] = None,
